@@ -284,7 +284,7 @@ BINOPS = [["+"], ["<"], [">"], ["<", "<"], [">", ">"], ["=", "="], ["&", "&"], [
 KD_FORMS = {"castgeneric2": "KD1", "binor": "KD2", "binor2": "KD2", "turbofnptr2": "KD3"}
 BAR_FORMS = {"binor", "binor2", "oror", "closure0", "closure1", "closure2", "moveclosure", "asyncclosure", "asyncmove", "closureret"}
 # forms that may not be followed by a binary operator without changing their meaning
-TAIL_ONLY = {"closure0", "closure1", "closure2", "moveclosure", "asyncclosure", "asyncmove", "closureret", "castfnret", "cast", "castgeneric1", "castgeneric2", "castglobal", "castptr", "castref", "castarith", "castfnnest", "range",
+TAIL_ONLY = {"closure0", "closure1", "closure2", "moveclosure", "asyncclosure", "asyncmove", "closureret", "castfnret", "castbinding", "cast", "castgeneric1", "castgeneric2", "castglobal", "castptr", "castref", "castarith", "castfnnest", "range",
              "less", "greater", "lesseq", "eq", "ifelse", "block"}
 
 
